@@ -770,7 +770,12 @@ func (r *FileRestorer) restoreNode(n dst.Node, parentName, parentField, parentFi
 		r.applySpace(n, "Before", n.Decs.Before)
 
 		// Init: Type
+		if _, ok := r.Ast.Nodes[n.Type]; ok && !allowDuplicate {
+			panic(fmt.Sprintf("duplicate node: %#v", n.Type))
+		}
 		out.Type = &ast.FuncType{}
+		r.Ast.Nodes[n.Type] = out.Type
+		r.Dst.Nodes[out.Type] = n.Type
 
 		// Decoration: Start
 		r.applyDecorations(out, "Start", n.Decs.Start, false)
